@@ -17,7 +17,8 @@ EXPLANATION = (
     "SI base dimensions and maps each to a unit which SymPy's tables (read from source) give that dimension and SI value 1, and "
     "dimension_to_si_unit multiplies table[dim] ** exponent over all dimensional dependencies; U5 the Celsius helpers are the "
     "affine maps x + c and x - c with the same constant c, which folds to 273.15, and the quantity variants route through them; "
-    "U6 evaluate_expression substitutes, for every quantity atom, its convert_to_si value. Exactness of float division and "
+    "U6 evaluate_expression substitutes, for every quantity atom, its convert_to_si value; U7 the helpers are stateless (no memoisation, "
+    "no global state, no stores into arguments). Exactness of float division and "
     "SymPy's subs are not decided.")
 ASSUMPTIONS = ["scale factors are SI scale factors (C05)", "SymPy's get_dimensional_dependencies returns base-dimension exponents"]
 TRUSTED = ["SymPy unit sources", "python ast"]
